@@ -29,6 +29,20 @@ type Case struct {
 	Peer                         string
 	Host                         string
 	Headers                      [][2]string // forwarding headers, in order
+	DerivedFrom                  []string    `json:",omitempty"` // the app's Config is a modified copy of another app's Config() that trusts these proxies
+}
+
+// newApp builds the app under test; with derivedFrom it starts from the Config() of another live app (the way sub-apps
+// and test fixtures are commonly configured) and replaces the proxy settings - the other app's trust must not leak in.
+func newApp(derivedFrom []string, header string, validate bool, tp fiber.TrustProxyConfig) *fiber.App {
+	cfg := fiber.Config{}
+	if derivedFrom != nil {
+		other := fiber.New(fiber.Config{TrustProxy: true, TrustProxyConfig: fiber.TrustProxyConfig{Proxies: derivedFrom}})
+		cfg = other.Config()
+	}
+	cfg.TrustProxy, cfg.ProxyHeader, cfg.EnableIPValidation = true, header, validate
+	cfg.TrustProxyConfig = tp
+	return fiber.New(cfg)
 }
 
 type obsT struct {
@@ -42,8 +56,7 @@ func (o obsT) String() string {
 }
 
 func observe(c Case, withHeaders bool) (o obsT, panicked string) {
-	app := fiber.New(fiber.Config{TrustProxy: true, ProxyHeader: c.ProxyHeader, EnableIPValidation: c.Validate,
-		TrustProxyConfig: fiber.TrustProxyConfig{Proxies: c.Proxies, Loopback: c.Loopback, Private: c.Private, LinkLocal: c.LinkLocal}})
+	app := newApp(c.DerivedFrom, c.ProxyHeader, c.Validate, fiber.TrustProxyConfig{Proxies: c.Proxies, Loopback: c.Loopback, Private: c.Private, LinkLocal: c.LinkLocal})
 	app.Get("/", func(ctx fiber.Ctx) error {
 		o = obsT{IP: strings.Clone(ctx.IP()), Host: strings.Clone(ctx.Host()), Hostname: strings.Clone(ctx.Hostname()), Scheme: strings.Clone(ctx.Scheme()),
 			Secure: ctx.Secure(), Base: strings.Clone(ctx.BaseURL()), Sub: fmt.Sprintf("%q", ctx.Subdomains())}
@@ -233,6 +246,9 @@ func genCase(t *rapid.T) Case {
 		c.Proxies = append(c.Proxies, rapid.SampledFrom(oddItems[:3]).Draw(t, "oddp"))
 	}
 	c.Peer = rapid.SampledFrom(peers).Draw(t, "peer")
+	if rapid.IntRange(0, 3).Draw(t, "derived") == 0 {
+		c.DerivedFrom = rapid.SliceOfNDistinct(rapid.SampledFrom(pool), 1, 3, rapid.ID[string]).Draw(t, "derivedFrom")
+	}
 	add := func(k string, vs []string) {
 		if rapid.IntRange(0, 2).Draw(t, "has"+k) == 0 {
 			c.Headers = append(c.Headers, [2]string{k, rapid.SampledFrom(vs).Draw(t, "v"+k)})
